@@ -1477,3 +1477,84 @@ Proof.
             assert (s <> s') by (intros <-; rewrite L in L'; injection L' as <-; congruence);
             rewrite live_obj_put_other by assumption; exact L').
 Qed.
+
+(* ------------------------------------------------------------------ every locked step preserves R *)
+Lemma good_mon_step_viol m x o : m_viol m = true -> mon_step m x o = m.
+Proof. intros V. unfold mon_step. rewrite V. reflexivity. Qed.
+
+Theorem step_R e m x : R e m -> R (fst (step e x)) (mon_step m x (snd (step e x))).
+Proof.
+  intros (G & VI). destruct (m_viol m) eqn:V.
+  { rewrite good_mon_step_viol by exact V. split; [exact G|left; exact V]. }
+  destruct VI as [VI|I]; [congruence|].
+  destruct x.
+  - apply step_pub; assumption.
+  - apply step_pub_batch; assumption.
+  - apply step_subrecent; assumption.
+  - apply step_subat; assumption.
+  - apply step_subcopy; assumption.
+  - apply step_ready; assumption.
+  - apply step_suspend; assumption.
+  - apply step_get; assumption.
+  - apply step_kick; assumption.
+  - apply step_leave; assumption.
+  - apply step_close; assumption.
+  - apply step_position; assumption.
+  - apply step_destroy; assumption.
+  - unfold step, step_gen, mon_step. rewrite V. cbn. apply R_same; assumption.
+  - unfold step, step_gen, mon_step. rewrite V. cbn. apply R_same; assumption.
+  - unfold step, step_gen, mon_step. rewrite V. cbn. apply R_same; assumption.
+  - unfold step, step_gen, mon_step. rewrite V. cbn. apply R_same; assumption.
+Qed.
+
+(* ---- composite operations: sequences of locked steps, one observation line each ---- *)
+Lemma R_bump e m : R e m -> R (bump e) m.
+Proof.
+  intros (G & [V|I]); split; try exact G; [left; exact V|right].
+  destruct I as [A B C D E F G0 H I0 J]. constructor; try assumption.
+  cbn [bump pq nawt]. destruct E as (E1 & E2). split; [exact E1|]. intros a Ia. specialize (E2 a Ia). lia.
+Qed.
+
+Lemma R_set_blk e m s o b : R e m -> live_obj e s = Some o -> R (set_blk e s o b) m.
+Proof.
+  intros (G & [V|I]) L; split; try exact G; [left; exact V|right].
+  pose proof (live_obj_get _ _ _ L) as (GO & SL).
+  assert (LO : forall k, live_obj (set_blk e s o b) k = if Nat.eq_dec s k then Some (mkSo (s_h o) (s_mode o) (s_live o) b) else live_obj e k).
+  { intros k. unfold set_blk. destruct (Nat.eq_dec s k) as [<-|N].
+    - apply live_obj_put_same. exact SL.
+    - apply live_obj_put_other. exact N. }
+  constructor; try (unfold set_blk; cbn [pq objs nawt palive]).
+  - apply (i_g _ _ I). - apply (i_mm _ _ I). - apply (i_cl _ _ I). - apply (i_fl _ _ I). - apply (i_awt _ _ I).
+  - intros k. destruct (Nat.eq_dec s k) as [<-|N].
+    + rewrite get_put_same. split; [discriminate|]. intros X. apply (i_none _ _ I) in X. congruence.
+    + rewrite get_put_other by exact N. apply (i_none _ _ I).
+  - intros k o1 r1 G1 G2. destruct (Nat.eq_dec s k) as [<-|N].
+    + rewrite get_put_same in G1. injection G1 as <-. cbn [s_live]. apply (i_live _ _ I s o r1 GO G2).
+    + rewrite get_put_other in G1 by exact N. apply (i_live _ _ I k); assumption.
+  - intros k o1 r1 L1 G2. fold (set_blk e s o b) in L1. rewrite LO in L1. destruct (Nat.eq_dec s k) as [<-|N].
+    + injection L1 as <-. cbn [s_h]. pose proof (i_sub _ _ I s o r1 L G2) as SO. unfold sub_ok in *. cbn [s_mode]. exact SO.
+    + apply (i_sub _ _ I k); assumption.
+  - intros s1 s2 o1 o2 L1 L2 E. fold (set_blk e s o b) in L1, L2. rewrite LO in L1, L2.
+    assert (X : forall k ok, (if Nat.eq_dec s k then Some (mkSo (s_h o) (s_mode o) (s_live o) b) else live_obj e k) = Some ok ->
+                exists ok', live_obj e k = Some ok' /\ s_h ok' = s_h ok).
+    { intros k ok HH. destruct (Nat.eq_dec s k) as [<-|N]; [injection HH as <-; exists o; split; [exact L|reflexivity]|exists ok; split; [exact HH|reflexivity]]. }
+    destruct (X _ _ L1) as (o1' & L1' & E1). destruct (X _ _ L2) as (o2' & L2' & E2).
+    apply (i_inj _ _ I s1 s2 o1' o2' L1' L2'). congruence.
+  - intros h U. destruct (i_own _ _ I h U) as (s' & o' & L' & E'). fold (set_blk e s o b).
+    destruct (Nat.eq_dec s s') as [<-|N].
+    + exists s, (mkSo (s_h o) (s_mode o) (s_live o) b). rewrite LO. destruct (Nat.eq_dec s s); [|congruence].
+      split; [reflexivity|]. cbn [s_h]. rewrite L in L'. injection L' as <-. exact E'.
+    + exists s', o'. rewrite LO. destruct (Nat.eq_dec s s'); [congruence|]. split; assumption.
+Qed.
+
+Lemma feed1_cons m x o os : feed1 m x (o :: os) = (mon_step m x o, os).
+Proof. reflexivity. Qed.
+
+Lemma step_obs_st e x : o_st (snd (step e x)) = 0 \/ o_st (snd (step e x)) = 1 \/ o_st (snd (step e x)) = -999.
+Proof.
+  unfold step, step_gen. destruct x; cbn;
+    repeat match goal with
+           | |- context[if ?c then _ else _] => destruct c; cbn
+           | |- context[match ?c with _ => _ end] => destruct c; cbn
+           end; auto.
+Qed.
